@@ -576,6 +576,50 @@ pub fn judge<K: Kind>(h: &History) -> Judged {
             break;
         }
     }
+    // the combined entry point on_invret(thread, op, ret): an invocation directly followed by its own
+    // return is fed in one call to a second pair of testers; they must accept and reject alike and
+    // end up equal to the ones fed event by event
+    if v.is_empty() {
+        let mut lin2: LinearizabilityTester<u8, K::Obj> = LinearizabilityTester::new(init.clone());
+        let mut sc2: SequentialConsistencyTester<u8, K::Obj> = SequentialConsistencyTester::new(init.clone());
+        let mut failed = false;
+        let mut i = 0;
+        let mut used = 0;
+        while i < h.events.len() {
+            let e = &h.events[i];
+            let pair = e.invoke && h.events.get(i + 1).map(|n| !n.invoke && n.thread == e.thread).unwrap_or(false);
+            let upto = if pair { i + 1 } else { i };
+            let expect_err = failed || parse::<K>(&h.events[..=upto]).is_err();
+            let (rl, rs) = if pair {
+                used += 1;
+                let n = &h.events[i + 1];
+                (lin2.on_invret(e.thread, K::op(e.code), K::ret(n.code)).map(|_| ()), sc2.on_invret(e.thread, K::op(e.code), K::ret(n.code)).map(|_| ()))
+            } else if e.invoke {
+                (lin2.on_invoke(e.thread, K::op(e.code)).map(|_| ()), sc2.on_invoke(e.thread, K::op(e.code)).map(|_| ()))
+            } else {
+                (lin2.on_return(e.thread, K::ret(e.code)).map(|_| ()), sc2.on_return(e.thread, K::ret(e.code)).map(|_| ()))
+            };
+            if rl.is_err() != expect_err || rs.is_err() != expect_err {
+                v.push(Violation::new("C14", "invret", format!("events up to {}: fed through on_invret where possible, the testers returned {:?} / {:?}, expected {}", upto, rl, rs, if expect_err { "Err" } else { "Ok" })));
+                v.push(Violation::new("C08", "invret", format!("events up to {}: fed through on_invret where possible, the linearizability tester returned {:?}, expected {}", upto, rl, if expect_err { "Err" } else { "Ok" })));
+                break;
+            }
+            failed |= expect_err;
+            i = upto + 1;
+        }
+        if used > 0 && v.is_empty() {
+            c.inc("histories_fed_through_on_invret");
+            if failed {
+                if lin2.is_consistent() || sc2.is_consistent() {
+                    v.push(Violation::new("C14", "invret", "an ill-formed history fed through on_invret is still reported consistent".to_string()));
+                    v.push(Violation::new("C08", "invret", "an ill-formed history fed through on_invret is still reported consistent".to_string()));
+                }
+            } else if lin2 != lin || sc2 != sc {
+                v.push(Violation::new("C14", "invret", format!("fed through on_invret the testers differ from those fed event by event: {:?} vs {:?}", sc2, sc)));
+                v.push(Violation::new("C08", "invret", format!("fed through on_invret the tester differs from the one fed event by event: {:?} vs {:?}", lin2, lin)));
+            }
+        }
+    }
     Judged { violations: v, counters: c }
 }
 
